@@ -10,6 +10,7 @@ import (
 	phttp "github.com/yandex/pandora/components/guns/http"
 	"github.com/yandex/pandora/components/providers/http/config"
 	"github.com/yandex/pandora/components/providers/http/decoders"
+	"github.com/yandex/pandora/components/providers/http/middleware"
 	"github.com/yandex/pandora/core"
 	"go.uber.org/zap"
 )
@@ -20,8 +21,8 @@ import (
 func c14Diff(dec config.DecoderType) {
 	vSpinIsViolation()
 	E := int(vConcretize(vNondetInt("E", 2, 3)))
-	limit := uint(vNondetInt("limit", 0, 3))
-	passes := uint(vNondetInt("passes", 0, 3))
+	limit := uint(vNondetInt("limit", 0, vHi(3, 6)))
+	passes := uint(vNondetInt("passes", 0, vHi(3, 6)))
 	var chosen []string
 	for _, tg := range []string{"t1", "t2", "t3"} {
 		if vNondetBool("choose_" + tg) {
@@ -128,12 +129,22 @@ func HarnessC14KnownNothingChosenSpin() {
 // time (all are acquired, then all requests are built, then all bodies are read); the requests
 // delivered with preload are those delivered without it.
 
+// c14MW is a header-adding middleware like the documented header/date one.
+type c14MW struct{}
+
+func (c14MW) InitMiddleware(ctx context.Context, log *zap.Logger) error { return nil }
+func (c14MW) UpdateRequest(req *http.Request) error {
+	req.Header.Add("D", "now")
+	return nil
+}
+
 func c14InFlight(preload bool, passes uint) (out []string, runErr error) {
-	file := "1 /a t1\nx\n2 /b t2\nyz\n"
+	file := "[H: v]\n1 /a t1\nx\n2 /b t2\nyz\n"
 	conf := config.Config{Decoder: config.DecoderURIPost, Passes: passes, Preload: preload}
 	d, err := decoders.NewDecoder(conf, strings.NewReader(file))
 	vCheck("D0.decoder.created", err == nil)
 	p := &Provider{Config: conf, Decoder: d, Sink: make(chan decoders.DecodedAmmo)}
+	p.Middlewares = []middleware.Middleware{c14MW{}}
 	var wg sync.WaitGroup
 	wg.Add(1)
 	go func() {
@@ -169,7 +180,7 @@ func c14InFlight(preload bool, passes uint) (out []string, runErr error) {
 		if req.Body != nil {
 			body, _ = io.ReadAll(req.Body)
 		}
-		out[i] += string(body)
+		out[i] += string(body) + " H=" + strings.Join(req.Header["H"], ",") + " D=" + strings.Join(req.Header["D"], ",")
 	}
 	for _, a := range held {
 		p.Release(a)
@@ -181,7 +192,7 @@ func HarnessC14InFlight() {
 	passes := uint(vConcretize(vNondetInt("passes", 1, 3)))
 	s, serr := c14InFlight(false, passes)
 	p, perr := c14InFlight(true, passes)
-	one := []string{"POST /a t1 x", "POST /b t2 yz"}
+	one := []string{"POST /a t1 x H=v D=now", "POST /b t2 yz H=v D=now"}
 	vCheck("P1.inflight.same.length", len(s) == len(p) && len(s) == 2*int(passes))
 	for i := range s {
 		vCheck("P1.inflight.stream.request", s[i] == one[i%2])
